@@ -114,7 +114,7 @@ pub fn scenarios(quick: bool) -> Vec<Scenario> {
     let names: Vec<&str> = if false {
         vec![]
     } else {
-        vec!["rgb-130x130-groups-tocrev", "rgb-130x130-groups-localtree", "rgb-300x200-groups-unequal-localtrees", "gray-70x40-squeeze-2pass", "rgb12-49x19-squeeze-hv", "anim-12x10-3kf", "anim-12x10-muladd-mul", "ref-then-blend-alpha16", "layers-chain-two-kf", "anim-4x4-six-frames", "rgba-9x7-ans-rct", "vardct-ycbcr-48x40-gab-epf", "vardct-ycbcr-40x24-noise", "vardct-420-40x24", "vardct-422-33x17-gab-epf", "rgba-24x20-patches", "rgba-24x20-patches-layer-under-patched-keyframe", "rgba-up2-21x13", "vardct-ycbcr-40x24-up4-epf", "vardct-264x40-2groups-gab-epf", "vardct-520x24-3groups-420", "vardct-260x264-4groups", "vardct-lfframe-40x24", "vardct-lfframe-264x40-2groups-epf", "rgb-40x24-splines", "vardct-40x24-splines-noise", "vardct-512x128-dct128-2groups-gab-epf", "vardct-512x136-dct64x128-2groups", "vardct-512x256-dct256-2groups", "vardct-520x256-dct128x256-3groups", "vardct-300x72-dct64-2groups", "vardct-264x72-mixed-2groups-lfsmooth-gab-epf", "vardct-72x40-small-transforms-cfl-hfmul"]
+        vec!["rgb-130x130-groups-tocrev", "rgb-130x130-groups-localtree", "rgb-300x200-groups-unequal-localtrees", "gray-70x40-squeeze-2pass", "rgb12-49x19-squeeze-hv", "anim-12x10-3kf", "anim-12x10-muladd-mul", "ref-then-blend-alpha16", "layers-chain-two-kf", "anim-4x4-six-frames", "rgba-9x7-ans-rct", "vardct-ycbcr-48x40-gab-epf", "vardct-ycbcr-40x24-noise", "vardct-420-40x24", "vardct-422-33x17-gab-epf", "rgba-24x20-patches", "rgba-24x20-patches-layer-under-patched-keyframe", "rgba-24x20-patched-layer-under-plain-keyframe", "rgba-up2-21x13", "vardct-ycbcr-40x24-up4-epf", "vardct-264x40-2groups-gab-epf", "vardct-520x24-3groups-420", "vardct-260x264-4groups", "vardct-lfframe-40x24", "vardct-lfframe-264x40-2groups-epf", "rgb-40x24-splines", "vardct-40x24-splines-noise", "vardct-512x128-dct128-2groups-gab-epf", "vardct-512x136-dct64x128-2groups", "vardct-512x256-dct256-2groups", "vardct-520x256-dct128x256-3groups", "vardct-300x72-dct64-2groups", "vardct-264x72-mixed-2groups-lfsmooth-gab-epf", "vardct-72x40-small-transforms-cfl-hfmul"]
     };
     for n in names {
         v.push(Scenario { name: n.to_string(), bytes: get(n) });
